@@ -167,8 +167,17 @@ def run(res, ctx):
         res.violation("broken-correspondence", "model (dec) and implementation differ: " + d,
                       {"theorem_or_projection": "correspondence projection C16 (rows with opening status)",
                        "input": r["hc"], "difference": d}, found_input=False)
+    # the --symbol-base text layer (parse_initial_status, cmd.rs, approot.rs lookup): lib/props/c16_text.py
+    import props.c16_text as c16_text
+    tst, tsamples = c16_text.run(res, ctx)
     res.coverage.update({
-        "evaluations": st["evaluations"] + st["malformed"],
+        "evaluations": st["evaluations"] + st["malformed"] + tst["text-evaluations"] + tst["lookup"]
+        + sum(v for k, v in tst.items() if k.startswith("cli-")),
+        "symbol_base_text_layer": {
+            "rule": "specification lists (hand-written corpus: every example of the theorems, every White_Space character and look-alike around every part, empty parts, extra colons, signs, exponent forms, underscores, 17-31 digit numbers, duplicate symbols, case variants; seeded generated and character-mutated lists; instances of C16_spec_roundtrip) through acb::app::input_parse::parse_initial_status, the extracted Model/InitSpec.v (group initspec) and an oracle written from the sources; positions and full error messages compared; lookup by security name through run_acb_app_to_delta_models; malformed specifications through the real acb binary with a valid, an invalid and a missing file",
+            "outcomes": dict(sorted(tst.items())),
+            "samples": tsamples,
+        },
         "distinct_nontrivial": st["distinct_nontrivial"],
         "rule": "seeded random inputs run twice on the implementation: with SYM:n:c and with a prepended purchase (price 0, commission c) dated 31+ days before the first row; zero / fractional shares, zero cost, several securities with their own positions, securities whose rows all belong to other affiliates, global splits, windows near the start; non-trivial = positive opening shares and >= 2 report rows; distinct by SHA-1",
         "samples": samples,
@@ -176,3 +185,16 @@ def run(res, ctx):
         "known_findings_replayed": dict(known_hit),
         "traces_validated_against_impl": 2 * st["evaluations"],
     })
+
+
+def replay(res, ctx, path):
+    """replays of the --symbol-base text layer are re-run alone; any other replay re-runs the check"""
+    import json
+    import common
+    import props.c16_text as c16_text
+    rep = json.load(open(path))
+    if "symbol_base" in rep and "input" not in rep:
+        c16_text.replay(res, ctx, rep)
+    else:
+        run(res, ctx)
+    return res.finish(common.check_proofs("C16"))
